@@ -71,6 +71,14 @@ func genProto(r *gen.R) protoCase {
 	}
 	raw := r.Bool()
 	tp := mon.TensorProto("w", t, raw)
+	if dt == ref.Bool && raw && r.Bool() {
+		// "true" is any non-zero byte: also bytes with the high bit set
+		for i := range tp.RawData {
+			if tp.RawData[i] != 0 {
+				tp.RawData[i] = byte(r.PickInt(1, 2, 0x7f, 0x80, 0xfe, 0xff))
+			}
+		}
+	}
 	pc := protoCase{tp: tp, mutation: "none"}
 	if r.Chance(0.45) {
 		sz := dt.Size()
@@ -275,7 +283,27 @@ func c12Run(c *Ctx) {
 		g := &mon.Graph{Outputs: []mon.GInput{{Name: "w", NoType: true}}}
 		mp := g.Proto()
 		mp.Graph.Initializer = []*onnx.TensorProto{tp}
-		judge("initializer+Run", runProtoModel(mp, []string{"w"}))
+		before := proto.Clone(mp)
+		load := runProtoModel
+		path := "initializer+Run"
+		if c.Idx%4 == 2 { // through NewModel on the proto object itself instead of through its bytes
+			load = func(mp *onnx.ModelProto, outs []string) mon.Outcome { return mon.RunModelProtoDirect(mp, nil, outs) }
+			path = "NewModel(proto)+Run"
+		}
+		firstLoad := load(mp, []string{"w"})
+		judge(path, firstLoad)
+		// loading must leave the caller's ModelProto as it was, and the same proto object
+		// must load again with the same result
+		if !proto.Equal(before, mp) {
+			c.Violation("decode:message-modified", "NewModel changed the ModelProto it was given | %s", c.caseStr)
+		}
+		if c.Idx%8 == 4 || c.Idx%8 == 2 {
+			again := load(mp, []string{"w"})
+			c.Eval(1)
+			if d := diffOutcomes(firstLoad, again); d != "" {
+				c.Violation("decode:second-decoding-differs", "loading the same ModelProto object a second time: %s | %s", d, c.caseStr)
+			}
+		}
 	}
 	// (c) value of a Constant node
 	if c.Idx%4 == 1 {
